@@ -560,12 +560,39 @@ impl CompressedEmbedding {
         if vector.len() >= TT_MIN_DIMENSION {
             if let Ok(config) = tensor_compress::TTConfig::for_dim(vector.len()) {
                 if let Ok(tt) = tensor_compress::tt_decompose(vector, &config) {
-                    return Self::TensorTrain(tt);
+                    // Keep the decomposition only when it reproduces the vector within the
+                    // configured tolerance (rank truncation can lose far more than that)
+                    if Self::tt_within_tolerance(vector, &tt, &config) {
+                        return Self::TensorTrain(tt);
+                    }
                 }
             }
         }
 
         Self::Dense(vector.to_vec())
+    }
+
+    /// Relative L2 error of the TT reconstruction against `d * tolerance` (the TT-SVD bound
+    /// for `d` cores). NaN or infinite errors count as out of tolerance.
+    #[allow(clippy::cast_precision_loss)]
+    fn tt_within_tolerance(
+        vector: &[f32],
+        tt: &tensor_compress::TTVector,
+        config: &tensor_compress::TTConfig,
+    ) -> bool {
+        let rec = tensor_compress::tt_reconstruct(tt);
+        if rec.len() != vector.len() {
+            return false;
+        }
+        let err: f64 = vector
+            .iter()
+            .zip(&rec)
+            .map(|(a, b)| (f64::from(*a) - f64::from(*b)).powi(2))
+            .sum::<f64>()
+            .sqrt();
+        let norm: f64 = vector.iter().map(|a| f64::from(*a).powi(2)).sum::<f64>().sqrt();
+        let bound = f64::from(config.tolerance) * config.shape.len() as f64;
+        err <= bound * norm
     }
 
     /// Convert to a dense vector.
